@@ -186,11 +186,18 @@ func (w *worker[T, JobType]) releaseWaiters(processing uint32) {
 		return
 	}
 
-	// Only release waiters if worker is paused or if running with an empty queue
-	if w.IsPaused() || (w.IsRunning() && w.queues.Len() == 0) {
-		// Broadcast to all waiters to signal they can continue
-		w.waiters.Broadcast()
+	// A running worker still has to drain its queue; in every other state
+	// (paused, stopped) the waiters only wait for the in-flight jobs
+	if w.IsRunning() && w.queues.Len() > 0 {
+		return
 	}
+
+	// Broadcast to all waiters to signal they can continue.
+	// The mutex is held so that the broadcast cannot fall between a waiter's
+	// evaluation of its condition and its parking on the Cond (lost wake-up).
+	w.mx.Lock()
+	w.waiters.Broadcast()
+	w.mx.Unlock()
 }
 
 func (w *worker[T, JobType]) sendError(err error) {
@@ -238,6 +245,26 @@ func (w *worker[T, JobType]) processNextJob() error {
 		return fmt.Errorf("%w: %w", ErrGetNextQueue, err)
 	}
 
+	// Count the job as in flight before it leaves its queue, and give the slot
+	// back on every path that does not hand a job to a pool worker. Barrier
+	// callers (WaitUntilFinished, PauseAndWait, Stop) therefore never see a job
+	// that is neither pending nor processing, and they are woken up when a
+	// dequeued job turns out to be cancelled or undecodable.
+	w.curProcessing.Add(1)
+	dispatched := false
+	defer func() {
+		if !dispatched {
+			w.releaseWaiters(w.curProcessing.Add(^uint32(0)))
+		}
+	}()
+
+	// Pause/Stop may have intervened since the event loop checked the status.
+	// They store the status first and read curProcessing afterwards, we do the
+	// opposite, so at least one side sees the other: the job stays pending.
+	if w.IsPaused() || w.IsStopped() {
+		return nil
+	}
+
 	var (
 		v     any
 		ok    bool
@@ -283,8 +310,8 @@ func (w *worker[T, JobType]) processNextJob() error {
 		return nil
 	}
 
-	w.curProcessing.Add(1)
 	j.setAckId(ackId)
+	dispatched = true
 
 	// then job will be process by the processSingleJob function inside spawnWorker
 	w.sendToNextChannel(j)
@@ -424,6 +451,10 @@ func (w *worker[T, JobType]) goEventLoop() {
 					w.sendError(err)
 				}
 			}
+
+			// the queue may have been emptied by Purge while nothing was in flight:
+			// nobody else would wake the callers of WaitUntilFinished then
+			w.releaseWaiters(w.curProcessing.Load())
 		}
 	}(w.eventLoopSignal)
 }
